@@ -26,7 +26,7 @@ def main():
 Every change below was confirmed in a scratch worktree of /repo (`python -m harness.seedeval`): the patch applies to
 the current HEAD, the repository's own test-suite still passes with it, the author's demonstration passes without and
 fails with it; then `WATCHDOG_REPO=<worktree> ./check Cxx` (quick tier) was run. Files: `seeded/<id>/{patch.diff,demo.py,notes.md,meta.json}`.
-""" + f"{len(rows)} changes, two to four per property (three rounds); 9 of round 2 and 10 of round 3 were missed or only half-caught by the first version of the check and led to a stronger check (see the last column).\n" + """
+""" + f"{len(rows)} changes over nine rounds (rounds 2-10; ten to twelve per property; three retired because a repair of /repo removed the code they changed). In every round some were missed or caught only without a failing input by the check as it stood (9 in round 2, 10 in round 3, ..., 4 in round 8, 8 in round 9, 4 in round 10); each such miss led to a stronger model, oracle or generator (last column and section 10.6). The whole corpus was re-evaluated on the final harness on 2026-10-01: every change that still applies is caught by the quick check of its property; those marked 'no failing input' are caught by a broken proof or correspondence only.\n" + """
 | id | change | needs | quick check of that property |
 |----|--------|-------|------------------------------|
 """ + "\n".join(rows) + "\n"
